@@ -69,6 +69,18 @@ def closed(t=None):
     add("list tensor vec", as_vector([f, g])[i] * u[i])
     add("list tensor mat", as_matrix([[f, g], [g, f * g]])[i, j] * A[i, j])
     add("list of rows indexed", as_tensor([A[0, :], A[1, :]])[i, j] * B[i, j])
+    # nested list tensors that are NOT symmetric under any permutation of their axes, reached through free / summed indices in every slot
+    Lm = as_matrix([[f, g], [f * f, 1 + g]])
+    add("nonsymmetric list matrix [i,j]", Lm[i, j] * A[i, j])
+    add("nonsymmetric list matrix [i,0]", Lm[i, 0] * u[i])
+    add("nonsymmetric list matrix [1,i]", Lm[1, i] * u[i])
+    add("nonsymmetric list matrix in a ct", as_tensor(Lm[i, j] * u[j], (i,))[k] * A[k, 0])
+    L23 = as_tensor([[f, g, f * g], [g * g, 2 + f, f - g]])
+    add("2x3 list tensor against a 2x3 list tensor", L23[i, j] * as_tensor([[u[0], u[1], v[0]], [v[1], f, g]])[i, j])
+    add("2x3 list tensor, column picked", L23[i, 2] * u[i])
+    L222 = as_tensor([[[f, g], [g * g, f * f]], [[f * g, 1 + f], [2 * g, f + g]]])
+    add("rank-3 list tensor [i,j,k]", L222[i, j, k] * A[i, j] * u[k])
+    add("rank-3 list tensor [k,0,i]", L222[k, 0, i] * A[k, i])
     add("grad f . u", grad(f)[i] * u[i])
     add("grad u : A", grad(u)[i, j] * A[i, j])
     add("div via dx", u[i].dx(i))
